@@ -860,6 +860,8 @@ package sio
 //@   callsite (*clientSocket).onPacket
 //@     requires looked == 1 && found && recv == target && arg0 == header [C05.route.client]
 //@     update dispatched = dispatched + 1
+//@   callsite (*clientSocket).onPacket go
+//@     requires false [C02.dispatch.in.arrival.order.client]
 //@   ensures dispatched == (found ? 1 : 0) [C05.route.client.one]
 
 // Leaving a namespace detaches exactly that socket from the connection's tables.
@@ -1019,3 +1021,61 @@ package sio
 //@   callsite (*serverSocket).sendControlPacket skip
 //@     requires wheld(s.connectedMu) && arg0 == parser.PacketTypeConnect [C06.sio.connect.atomic.reply]
 //@   ensures s.connected [C06.sio.connect.flag]
+
+// ---------------------------------------------------------------------------------------------
+// C02 / C01. The connection's packet queue is a FIFO of frames: add appends its whole argument, in order, in ONE
+// critical section (frames of two packets cannot interleave); get hands out everything queued, in order, and leaves the
+// queue empty; the single drainer passes each batch to the Engine.IO socket unchanged, once.
+//@ func (*packetQueue).add
+//@   opt safety off
+//@   requires pq != nil
+//@   ghost stores int = 0
+//@   onstore packets
+//@     requires recv == pq && wheld(pq.mu) && stores == 0 [C02.pq.add.atomic]
+//@     update stores = stores + 1
+//@   ensures len(pq.packets) == old(len(pq.packets)) + len(packets) [C02.pq.add.len]
+//@   ensures forall k int :: 0 <= k && k < old(len(pq.packets)) ==> pq.packets[k] == old(pq.packets[k]) [C02.pq.add.keeps]
+//@   ensures forall k int :: 0 <= k && k < len(packets) ==> pq.packets[old(len(pq.packets)) + k] == old(packets[k]) [C02.pq.add.appends.in.order]
+//@   ensures !held(pq.mu) [C02.pq.add.released]
+
+//@ func (*packetQueue).get
+//@   opt safety off
+//@   requires pq != nil
+//@   onstore packets
+//@     requires recv == pq && wheld(pq.mu) [C02.pq.get.atomic]
+//@   ensures packets == old(pq.packets) && len(pq.packets) == 0 [C02.pq.get.all]
+//@   ensures !held(pq.mu) [C02.pq.get.released]
+
+// poll: whatever it returns as ok came from one get (so it is a whole prefix of the FIFO, in order).
+//@ func (*packetQueue).poll
+//@   opt safety off
+//@   ghost last []*eioparser.Packet = nil
+//@   ghost gets int = 0
+//@   callsite (*packetQueue).get skip
+//@     update gets = gets + 1
+//@     updateafter last = result
+//@   ensures ok ==> packets == last && len(packets) != 0 && gets >= 1 [C02.pq.poll.batch]
+//@   ensures closed ==> !ok [C02.pq.poll.closed]
+
+//@ func (*packetQueue).pollAndSend
+//@   opt safety off
+//@   ghost batch []*eioparser.Packet = nil
+//@   ghost batchok bool = false
+//@   ghost polled int = 0
+//@   ghost sent int = 0
+//@   callsite (*packetQueue).poll skip
+//@     requires sent == polled || !batchok [C02.pq.drain.no.batch.dropped]
+//@     update polled = sent + 1
+//@     updateafter batch = result0
+//@     updateafter batchok = result1 && !result2
+//@   callsite Socket.Send skip
+//@     requires batchok && sent == polled - 1 && arg0 == batch [C02.pq.drain.fifo]
+//@     update sent = sent + 1
+//@   loop 0 invariant sent == polled || !batchok [C02.pq.drain.inv]
+
+// Handler entry in arrival order: the property demands that what arrives in order is handed to the handlers in order,
+// i.e. that the decoded packet is dispatched before onParserFinish returns (the parser mutex serialises arrivals).
+//@ func (*serverConn).onParserFinish
+//@   opt safety off
+//@   callsite onParserFinish$1 go
+//@     requires false [C02.dispatch.in.arrival.order.server]
